@@ -203,6 +203,11 @@ func grantPredicate(c *engine.Ctx) {
 			if strings.Contains(l.L, `os.Getenv("OIDC_SERVER_URL") != ""`) && strings.Contains(l.L, `metautils.NiceMD.Get("authorization") != ""`) && strings.Contains(l.L, "&&") && l.R == "true" && l.Mask == 5 {
 				empty["token"] = true
 			}
+			// the same condition read literal by literal (a local that names a condition stands for it): no
+			// authenticating server configured, or no bearer token presented
+			if (l.L == `os.Getenv("OIDC_SERVER_URL")` || strings.HasSuffix(l.L, `metautils.NiceMD.Get("authorization")`)) && l.R == `""` && l.Mask == 2 {
+				empty["token"] = true
+			}
 		}
 		if empty["preferred_username"] && empty["name"] && empty["groups"] && empty["email"] && empty["token"] {
 			continue
